@@ -94,7 +94,7 @@ def step_of(tr, container):
 def fetch_histories(tier):
     """playlist histories = behaviours of ClientFetch.tla printed by TLC (simulation) as the client stops"""
     out = []
-    for cfg, num in (("Gen_fetch_live.cfg", 400 if tier == "quick" else 4000), ("Gen_fetch_vod.cfg", 120 if tier == "quick" else 1200)):
+    for cfg, num in (("Gen_fetch_live.cfg", 400 if tier == "quick" else 20000), ("Gen_fetch_vod.cfg", 120 if tier == "quick" else 6000)):
         g = vlib.tlc("ClientFetch", cfg, timeout=600, quiet=True, workers=1, simulate="num=%d" % num, depth=40, tlcseed=vlib.seed())
         hs = vlib.hist_lines(g.out)
         if not hs:
@@ -154,7 +154,7 @@ def fetch_scenarios(hists, rnd, limit):
                     query=rnd.choice(["", "tok=1"]))
         scs.append(scenario("multi", [s0, s1], "fetchmv%d" % i))
     # Low-Latency: hint of each successive playlist, _HLS_skip=YES iff CAN-SKIP-UNTIL
-    for i in range(6 if limit < 200 else 40):
+    for i in range(6 if limit < 200 else 200):
         h0 = rnd.randint(3, 9) * 2 + rnd.choice([1, 2])
         nver = rnd.randint(2, 5)
         vs = []
@@ -278,7 +278,7 @@ def fault_scenarios(binary, tier):
                 nths = nths[:2]
             for nth in nths:
                 for name in names:
-                    closes = [0] if tier == "quick" else [0, 15, 45]
+                    closes = [0] if tier == "quick" else [0, 5, 15, 30, 45, 80]
                     if name in ("seg-extratraf", "init-unknown-extra", "seg-emptytrun", "ts-unsup-extra", "init-extra"):
                         closes = [0, 30]
                     for cms in closes:
@@ -583,7 +583,7 @@ def annotate(run):
                 # MPEG-TS: the anchor of a segment is taken when its first leading-track unit is READ; a unit of another track
                 # that is stored before it is still dated with the previous segment's anchor (known finding, DESIGN section 11)
                 if (s0["container"] == "ts" and m > first_seg[0] and ti != lead
-                        and dts_of(j, ti, n) < dts_of(0, lead, m * per(0))):
+                        and Fraction(dts_of(j, ti, n), S) < Fraction(dts_of(0, lead, m * per(0) + (1 if per(0) > 1 else 0)), ls)):
                     pm = m - 1
                     pwant = (pm * s0["segDurMs"] + pm * s0["dtJump"]) * 1000 + \
                         (Fraction(dts_of(j, ti, n), S) - Fraction(dts_of(0, lead, pm * per(0)), ls)) * 1000000
@@ -619,7 +619,7 @@ E2E_TRACKS = {
 def e2e_scenarios(rnd, tier):
     from props import muxgen
     scs = []
-    reps = 1 if tier == "quick" else 6
+    reps = 1 if tier == "quick" else 16
     k = 0
     for rep in range(reps):
         for variant in ("mpegts", "fmp4", "ll"):
@@ -737,9 +737,11 @@ def annotate_e2e(run):
     w = {}
     segs = {}
     mv = None
+    widx = {}
     for d in run:
         if d["ev"] == "wr" and d["ok"] == 1:
             w[(d["t"], d["id"])] = (d["dts"], d["ntp"])
+            widx[(d["t"], d["id"])] = len(widx)
         elif d["ev"] == "sg":
             segs.setdefault(d["s"], {})[d["msn"]] = {u["t"]: (u["lo"], u["hi"]) for u in d["u"]}
         elif d["ev"] == "mv":
@@ -817,10 +819,17 @@ def annotate_e2e(run):
                     e = d["abs"] - want
                     tol = 1000 + Fraction(2 * 1000000, rt) + 2
                     d["da"] = 0 if abs(e) <= tol else (clip(round(e)) or 1)
-                    if d["da"] != 0 and t != lead and (variant != "mpegts" or Fraction(wd, rt) < Fraction(anchor[0], rl)):
+                    # MPEG-TS: position in the byte stream = order of the Write calls
+                    early = True
+                    if variant == "mpegts" and msn is not None:
+                        lo_hi = segs.get(lead_stream, {}).get(msn, {}).get(lead)
+                        if lo_hi and (lead, lo_hi[0] + 1) in widx:
+                            early = widx[key] < widx[(lead, lo_hi[0] + 1)]
+                    if d["da"] != 0 and t != lead and early:
                         # fMP4: the client dates rendition units with the anchor of whichever segment the leading stream processed
-                        # last; MPEG-TS: a unit whose DTS precedes the segment's first leading-track unit is dated with the anchor
-                        # of the previous segment (the anchor moves when the first leading-track sample of the segment is read)
+                        # last; MPEG-TS: the anchor moves when the demuxer EMITS the first leading-track unit of the segment, which
+                        # is when the second one starts: units of other tracks WRITTEN before the second leading-track unit of the
+                        # segment may still be dated with the previous segment's anchor
                         for m2, per2 in segs.get(lead_stream, {}).items():
                             lo2 = per2.get(lead)
                             if lo2 and (lead, lo2[0]) in w:
@@ -1011,10 +1020,10 @@ def run(pid, tier, replay):
                     raise vlib.Inconclusive("weakened selection rule %s was not refuted (%s)" % (cfg, d.kind))
                 design[cfg] = "refuted: " + d.violated
             hists = fetch_histories(tier)
-            scs = fetch_scenarios(hists, rnd, 160 if tier == "quick" else 1500)
+            scs = fetch_scenarios(hists, rnd, 160 if tier == "quick" else 6000)
             cov["histories"] = len(hists)
         elif pid == "C10":
-            scs = time_scenarios(rnd, 400 if tier == "quick" else 4000)
+            scs = time_scenarios(rnd, 400 if tier == "quick" else 16000)
         elif pid == "C12":
             scs, design = life_scenarios(tier)
         elif pid == "C13":
